@@ -5,35 +5,37 @@ namespace NmlVerif.Factory
 open NmlVerif NmlVerif.Add
 
 /-- everything the factory can do -/
-theorem factory_cases (T : Table) (env : Env) (enabled flag : Bool) (t : TypeArg) (kw : Kwargs) (oid : Nat) :
-    (T.row? t.resolve = none ∧ factory T env enabled flag t kw oid = .error .attrError)
-    ∨ (env.ctorFails t.resolve kw = true ∧ factory T env enabled flag t kw oid = .error .ctorValueError)
-    ∨ (T.row? t.resolve ≠ none ∧ env.ctorFails t.resolve kw = false ∧
+theorem factory_cases (T : Table) (C : CtorTable) (env : Env) (enabled flag : Bool) (t : TypeArg) (kw : Kwargs)
+    (oid : Nat) :
+    (T.row? t.resolve = none ∧ factory T C env enabled flag t kw oid = .error .attrError)
+    ∨ (construct C env t.resolve kw oid = none ∧ factory T C env enabled flag t kw oid = .error .ctorValueError)
+    ∨ (T.row? t.resolve ≠ none ∧ (∃ o, construct C env t.resolve kw oid = some o) ∧
         ∃ k, firstBadArg T t.resolve kw = some k ∧ k ∈ keys kw ∧
-          factory T env enabled flag t kw oid = .error (.badArg k))
-    ∨ (T.row? t.resolve ≠ none ∧ env.ctorFails t.resolve kw = false ∧ firstBadArg T t.resolve kw = none ∧
-        factory T env enabled flag t kw oid =
+          factory T C env enabled flag t kw oid = .error (.badArg k))
+    ∨ (T.row? t.resolve ≠ none ∧ firstBadArg T t.resolve kw = none ∧
+        ∃ o, construct C env t.resolve kw oid = some o ∧
+        factory T C env enabled flag t kw oid =
           if enabled && flag then
-            (if env.valid (built T env t.resolve kw oid) then .ok (built T env t.resolve kw oid) else .error .invalid)
-          else .ok (built T env t.resolve kw oid)) := by
+            (if env.valid (built env t.resolve o) then .ok (built env t.resolve o) else .error .invalid)
+          else .ok (built env t.resolve o)) := by
   unfold factory
   cases hr : T.row? t.resolve with
   | none => left; exact ⟨rfl, rfl⟩
   | some r =>
     right
-    cases hc : env.ctorFails t.resolve kw with
-    | true => left; exact ⟨rfl, by simp⟩
-    | false =>
+    cases hc : construct C env t.resolve kw oid with
+    | none => left; exact ⟨rfl, by simp⟩
+    | some o =>
       right
       cases hb : firstBadArg T t.resolve kw with
       | some k =>
         left
-        refine ⟨by simp, rfl, k, rfl, ?_, by simp⟩
+        refine ⟨by simp, ⟨o, rfl⟩, k, rfl, ?_, by simp⟩
         unfold firstBadArg at hb
         exact List.mem_of_find?_eq_some hb
       | none =>
         right
-        exact ⟨by simp, rfl, rfl, by simp⟩
+        exact ⟨by simp, rfl, o, rfl, by simp⟩
 
 theorem lookup_filter_keys : ∀ (kw : Kwargs) (names : List Nat) (n : Nat), names.contains n = true →
     lookup (kw.filter (fun p => names.contains p.1)) n = lookup kw n
@@ -93,5 +95,78 @@ theorem add_gate_off (T : Table) (valid valid' strOk : Obj → Bool) (g : Gate) 
     Add.add T valid strOk g parent child hint force = Add.add T valid' strOk g parent child hint force := by
   have hon : g.on = false := hoff
   simp only [Add.add, addWith, addCore, hon, Bool.false_and, Bool.false_eq_true, ↓reduceIte]
+
+/-! ### the generated constructors -/
+
+/-- the evaluated assignments, one per entry of the wiring, under the attribute names of the wiring -/
+theorem evalAll_spec (env : Env) (kw : Kwargs) : ∀ (l : List Assign) (l' : List (Nat × Val)),
+    mapOpt (Assign.eval env kw) l = some l' →
+    l'.map (·.1) = l.map (·.field) ∧
+      ∀ a ∈ l, ∃ v, pyCast env a.by_ (a.src.eval kw) = some v ∧ (a.field, v) ∈ l'
+  | [], l', h => by
+    simp only [mapOpt, Option.some.injEq] at h
+    subst h
+    exact ⟨rfl, by simp⟩
+  | a :: r, l', h => by
+    simp only [mapOpt] at h
+    cases hc : pyCast env a.by_ (a.src.eval kw) with
+    | none => simp [Assign.eval, hc] at h
+    | some v =>
+      cases hr : mapOpt (Assign.eval env kw) r with
+      | none => simp [Assign.eval, hc, hr] at h
+      | some rs =>
+        simp only [Assign.eval, hc, Option.map_some, hr, Option.some.injEq] at h
+        subst h
+        obtain ⟨ih1, ih2⟩ := evalAll_spec env kw r rs hr
+        refine ⟨by simp [ih1], ?_⟩
+        intro b hb
+        rcases List.mem_cons.mp hb with rfl | hb'
+        · exact ⟨v, hc, List.mem_cons_self⟩
+        · obtain ⟨w, hw1, hw2⟩ := ih2 b hb'
+          exact ⟨w, hw1, List.mem_cons_of_mem _ hw2⟩
+
+theorem lookup_foldl_setF_notin : ∀ (l : List (Nat × Val)) (acc : List (Nat × Val)) (k : Nat),
+    k ∉ l.map (·.1) → lookup (l.foldl (fun acc p => setF acc p.1 p.2) acc) k = lookup acc k
+  | [], _, _, _ => rfl
+  | p :: r, acc, k, h => by
+    simp only [List.map_cons, List.mem_cons, not_or] at h
+    simp only [List.foldl_cons]
+    rw [lookup_foldl_setF_notin r _ k h.2]
+    exact lookup_setF_ne acc p.1 k p.2 h.1
+
+theorem lookup_foldl_setF_mem : ∀ (l : List (Nat × Val)) (acc : List (Nat × Val)) (k : Nat) (v : Val),
+    (l.map (·.1)).count k = 1 → (k, v) ∈ l → lookup (l.foldl (fun acc p => setF acc p.1 p.2) acc) k = some v
+  | [], _, _, _, _, h => by cases h
+  | p :: r, acc, k, v, hc, h => by
+    simp only [List.foldl_cons]
+    by_cases hk : p.1 = k
+    · have hr : k ∉ r.map (·.1) := by
+        intro hm
+        have : 0 < (r.map (·.1)).count k := List.count_pos_iff.mpr hm
+        simp only [List.map_cons, hk, List.count_cons_self] at hc
+        omega
+      have hp : p = (k, v) := by
+        rcases List.mem_cons.mp h with heq | hin
+        · exact heq.symm
+        · exact absurd (List.mem_map_of_mem (f := (·.1)) hin) hr
+      subst hp
+      rw [lookup_foldl_setF_notin r _ k hr]
+      exact lookup_setF_eq acc k v
+    · have hc' : (r.map (·.1)).count k = 1 := by
+        simpa [List.map_cons, List.count_cons, hk] using hc
+      have hin : (k, v) ∈ r := by
+        rcases List.mem_cons.mp h with heq | hin
+        · exact absurd (by rw [← heq]) hk
+        · exact hin
+      exact lookup_foldl_setF_mem r _ k v hc' hin
+
+/-- `Src.eval` looks at the keyword list through `lookup` of the names it is fed by only -/
+theorem eval_filter (names : List Nat) (kw : Kwargs) : ∀ (s : Src),
+    (match s with | .given n _ => names.contains n = true | .const _ => True) →
+    s.eval (kw.filter (fun p => names.contains p.1)) = s.eval kw
+  | .given n d, h => by
+    simp only [Src.eval]
+    rw [lookup_filter_keys kw names n h]
+  | .const _, _ => rfl
 
 end NmlVerif.Factory
